@@ -223,7 +223,7 @@ Definition adjust_path_prefix (r : repr) : repr :=
   let new_prefix :=
     if r_is_null r P_HOST && (1 <? r_segs r) then
       match part_view r P_PATH with
-      | 47 :: 47 :: _ => [47;46]
+      | a :: b :: _ => if (a =? 47) && (b =? 47) then [47;46] else []      (* pathname[0] == '/' && pathname[1] == '/' *)
       | _ => []
       end
     else [] in
